@@ -248,10 +248,24 @@ def replay_precframe(d, quiet=False):
     for scenario in drv:
         for prec0 in (53, 101):
             mpmath.mp.prec = prec0
+            import signal
+
+            def _alarm(sig, frm):
+                raise TimeoutError('replay scenario timed out')
+            try:
+                signal.signal(signal.SIGALRM, _alarm)
+                signal.alarm(20)
+            except Exception:
+                pass
             try:
                 scenario(mpmath.mp)
             except BaseException:
                 pass
+            finally:
+                try:
+                    signal.alarm(0)
+                except Exception:
+                    pass
             after = mpmath.mp.prec
             mpmath.mp.prec = 53
             if after != prec0:
